@@ -469,7 +469,7 @@ theorem internalLog_eq (env : Env) (fuel : Nat) (sc : String) (ad : List String)
       match getClassInPackage env sc with
       | .ok k =>
         n03_methLog true ad k.methods
-          ++ (k.classes.filter (fun ic => !isInternal ic.name)).flatMap (n03_classLog env fuel)
+          ++ (k.classes.filter (fun ic => !isInternal ic.name && !ad.contains ic.name)).flatMap (n03_classLog env fuel)
           ++ (k.superclasses.filter n03_privSuper).flatMap
               (fun ss => n03_internalLog env fuel ss (unionSet ad (n03_methNames true ad k.methods)))
       | .error _ => [] :=
